@@ -71,3 +71,12 @@ Example C08_nonvacuous :
    primary_run 2000 [PHandoff false true; PHandoff true true])
   = ([1; 1; 2; 3], [0; 1; 2], [0; 1], (XExpired, true, 3000), (XHandedOff, false, 0)).
 Proof. vm_compute. reflexivity. Qed.
+
+(* the same holds at the last moment: the cluster id the lease service has right after the acquisition is compared again
+   (it may have been initialised for another cluster since the node looked first) *)
+Theorem C08_post_acquire_own_cluster : forall local leaser c, post_acquire local leaser = (true, Some c) ->
+  (leaser = None /\ (local = Some c \/ (local = None /\ c = 0))) \/ (leaser = Some c /\ local = Some c).
+Proof. exact post_acquire_own_cluster. Qed.
+Theorem C08_post_acquire_foreign_refused : forall a b, a <> b -> fst (post_acquire (Some a) (Some b)) = false.
+Proof. exact post_acquire_foreign_refused. Qed.
+
